@@ -56,7 +56,7 @@ def jobs(tier, seed):
     out = []
     quick = tier == "quick"
     L = 2 if quick else 3
-    shapes = ["G-FIN", "G-LIN", "G-NU", "G-PAL", "G-NUC", "G-INT"] if quick else ["G-FIN", "G-LIN", "G-NU", "G-PAL", "G-NUC", "G-INT", "G-LR", "G-UC", "G-DUP", "G-NULL3", "G-S1", "G-MUT", "G-DUP2"]
+    shapes = ["G-FIN", "G-LIN", "G-NU", "G-PAL", "G-NUC", "G-INT", "G-TOK"] if quick else ["G-FIN", "G-LIN", "G-NU", "G-PAL", "G-NUC", "G-INT", "G-LR", "G-UC", "G-DUP", "G-NULL3", "G-S1", "G-MUT", "G-DUP2", "G-TOK"]
     for sh in shapes:
         sk = grammar(sh)
         prefixes = [list(x) for x in all_strings(sk.V, L)]
